@@ -9,6 +9,7 @@ next_paths is the concatenation of the members' lines; the caller-visible lines
 of a breadth-first run are, per record, the union (intersection) of the
 members' standalone decisions."""
 import json
+import os
 
 from .. import seams, ops, gen, world as W
 from .common import Out, drop_each, with_, REAL_ALL, STUB_ALL
@@ -50,7 +51,8 @@ def generate(rng, i, tier):
             modes["unmatched-mode"] = "keep"
         members.append(gen.gen_member(rng, hdr, len(rows), f"m{j}", zoo_p=0.4, zoo_pool=gen.ZOO_SAFE, modes=modes))
     rng.shuffle(members)  # seeded member order
-    return {"seed": rng.getrandbits(32), "rows": rows, "members": members, "dialect": rng.choice(DIALECTS), "policy": rng.choice([["collect", "print"], ["collect"], ["collect", "fail"], ["collect", "stop"]])}
+    tear = {"ext": rng.choice(["csv", "json"]), "before": rng.randint(1, 8)} if rng.random() < 0.3 else None
+    return {"seed": rng.getrandbits(32), "rows": rows, "members": members, "dialect": rng.choice(DIALECTS), "policy": rng.choice([["collect", "print"], ["collect"], ["collect", "fail"], ["collect", "stop"]]), "tear": tear}
 
 
 def reductions(sc):
@@ -69,6 +71,8 @@ def reductions(sc):
             yield c
     if sc["dialect"] != [",", '"']:
         yield with_(sc, dialect=[",", '"'])
+    if sc.get("tear"):
+        yield with_(sc, tear=None)
 
 
 def _features(m):
@@ -145,7 +149,18 @@ def execute(sc):
         configs = [("collect_paths", None), ("next_paths_collect", None), ("fast_forward_paths", None)]
         for agree in (False, True):
             configs += [("collect_by_line", agree), ("next_by_line", agree), ("fast_forward_by_line", agree)]
-        for meth, agree in configs:
+        tear = sc.get("tear")
+        for ci, (meth, agree) in enumerate(configs):
+            if tear and ci == tear["before"]:
+                # between two runs half of the line-count/header cache entries is lost (a process killed between the two
+                # writes, a cleaned-up directory): the next run must recount, not go on with half an entry
+                cdir = "cache"
+                gone = [f for f in (os.listdir(cdir) if os.path.isdir(cdir) else []) if f.endswith("." + tear["ext"])]
+                for f in gone:
+                    os.remove(os.path.join(cdir, f))
+                if gone:
+                    out.fault("torn_cache_entry", len(gone))
+                    out.probe("run over a cache with half of an entry missing")
             cs = ops.new_csvpaths(delim, quote)
             where = f"{meth}" + ("" if agree is None else f"(if_all_agree={agree})")
             caller = ops.run_group(cs, meth, "g", if_all_agree=bool(agree))
@@ -199,6 +214,7 @@ def execute(sc):
         out.sig = [k, [(_features(m), m["scan"][-1:] if m["scan"] == "*" else "w") for m in members], "".join("b" if r == [] else "r" for r in rows)[:12], sc["dialect"] != [",", '"']]
         out.nontrivial = k >= 2 or bool(feats)
         out.extra["features"] = feats
+        out.probe("run over a cache with half of an entry missing", False)
         out.probe("member with a mode set in its comment", any(m.get("modes") for m in members))
         for pr in ("file with an exact duplicate record", "a member stopped while others continue", "blank last record with last()", "advance in a file with interior blank records"):
             out.probe(pr, False)
